@@ -22,9 +22,6 @@ inductive EStep : St → St → Prop
   | emit (s : St) (i : Instr) (hw : i.writes = none) (hd : i.declares = none) (hl : i.setsLabel = none)
       (hu : ∀ v, i.usesValue = some v → ∃ n, s.lookupValue n = some v) (hr : i.isRet = false)
       (ht : i.targets = []) : EStep s (s.push i)
-  /-- push a conditional-branch instruction (the only expression-level instruction with jump targets) -/
-  | branch (s : St) (i : Instr) (hw : i.writes = none) (hd : i.declares = none) (hl : i.setsLabel = none)
-      (hu : i.usesValue = none) (hr : i.isRet = false) : EStep s (s.push i)
   /-- bump the counter and push an instruction that writes the new register -/
   | incEmit (s : St) (i : Instr) (hw : i.writes = some s.incReg.curReg) (hd : i.declares = none)
       (hl : i.setsLabel = none) (hu : ∀ v, i.usesValue = some v → ∃ n, s.lookupValue n = some v)
@@ -89,6 +86,22 @@ theorem ESteps.panic_eq {s s' : St} (h : ESteps s s') : s'.panic = s.panic := by
   induction h with
   | refl => rfl
   | tail _ st ih => rw [st.panic_eq, ih]
+
+/-- an expression-level step chain followed by at most one conditional-branch instruction
+(`if_condition_calculation`: the only place below the control constructs that names labels) -/
+def BSteps (s s' : St) : Prop :=
+  ∃ s1, ESteps s s1 ∧ (s' = s1 ∨ ∃ i : Instr, s' = s1.push i ∧ i.writes = none ∧ i.declares = none ∧
+    i.setsLabel = none ∧ i.usesValue = none ∧ i.isRet = false)
+
+theorem BSteps.toSteps {a b : St} (h : BSteps a b) : Steps a b := by
+  obtain ⟨s1, h1, rfl | ⟨i, rfl, hw, hd, _, hu, hr⟩⟩ := h
+  · exact h1.toSteps
+  · exact h1.toSteps.tail (Step.ctl _ _ hw hd hu hr)
+
+theorem BSteps.panic_eq {s s' : St} (h : BSteps s s') : s'.panic = s.panic := by
+  obtain ⟨s1, h1, rfl | ⟨i, rfl, _⟩⟩ := h
+  · exact h1.panic_eq
+  · rw [← h1.panic_eq]; rfl
 
 /-- a state transformer all of whose runs are expression-level step chains -/
 def EM {α : Type} (m : St → α × St) : Prop := ∀ s, ESteps s (m s).2
